@@ -88,6 +88,7 @@ ASSUMPTIONS = [
 SPECIAL_HEADS = [
     "Diag", "ConstantDiag", "Identity", "KroneckerDiag", "BlockDiag", "BlockDiag", "BlockInterleaved", "BlockInterleaved",
     "SumBatch", "SumBatch", "Interpolated", "Interpolated", "Interpolated", "Interpolated", "PsdSum", "PsdSum", "PsdSum",
+    "BatchRepeat", "BatchRepeat",
 ]  # fmt: skip
 GENERIC_HEADS = [
     "Dense", "Minimal", "Toeplitz", "Kronecker", "Root", "LowRankRoot", "Chol", "Sum", "SumKronecker", "ConstantMul", "Mul",
@@ -285,6 +286,10 @@ def _head_first(draw, heads, doms, dts, batches, max_dim, max_depth, excl, class
     batch = draw(st.sampled_from(batches))
     if head == "BatchRepeat" and not batch:
         batch = draw(st.sampled_from([b for b in batches if b]))
+    if head == "BatchRepeat" and draw(st.booleans()):
+        # a batch dimension of composite size: base batch size > 1 AND repeat factor > 1 in the same dimension
+        batch = draw(st.sampled_from([(4,), (4,), (6,), (2, 4), (4, 1)]))
+        max_dim = min(max_dim, 3)
     if head in KRON_HEADS:
         n = draw(st.sampled_from([m for m in (4, 6, 4) if m <= max_dim]))
     elif head == "Interpolated":
